@@ -1431,6 +1431,26 @@ for _i, _c in enumerate(['_SimpleThreadQueue', '_SimpleProcessQueue', '_Pipe', '
     VARIANTS.append(V(f'G-cls-{_i:02d}', 'E', ALL, '*', None, '', _rename_word(_c, _c + 'Renamed'), note=f'class `{_c}` renamed across the package'))
 
 
+# ---------------------------------------------------------------------- whole-module rewrites of tests, calls and displays (selftest/transforms.py)
+from . import transforms as _tf  # noqa: E402
+
+for _fam, _tn, _note in (
+    ('G-neg', 'negcmp', '`a is not b` / `a != b` / `a not in b` written as `not (a is b)` / `not (a == b)` / `not (a in b)`'),
+    ('G-isi', 'splitisi', '`isinstance(x, (A, B))` written as `isinstance(x, A) or isinstance(x, B)`'),
+    ('G-tif', 'if2tern', '`if c: x = a` / `else: x = b` written as `x = a if c else b`'),
+    ('G-ift', 'tern2if', '`x = a if c else b` written as an if statement'),
+    ('G-kwt', 'kwtimeout', '`q.get(timeout=t)` written as `q.get(True, t)`, `e.wait(timeout=t)` as `e.wait(t)`'),
+    ('G-ptk', 'postimeout', '`e.wait(t)` / `t.join(t)` written with `timeout=`'),
+    ('G-dem', 'demorgan', '`a and b` written as `not (not a or not b)`'),
+    ('G-yod', 'swapeq', 'the operands of every ==, !=, is, is not swapped'),
+    ('G-dct', 'dictlit', 'dict displays with identifier keys written as `dict(k=v)` and the other way round'),
+    ('G-ect', 'earlycont', 'a loop body ending in `if c: <block>` written as `if not c: continue` + block'),
+    ('G-rot', 'reordertop', 'module-level functions moved behind the classes'),
+):
+    for _i, _m in enumerate(_MODS + [FU]):
+        VARIANTS.append(V(f'{_fam}-{_i:02d}', 'E', ALL, _m, None, r'\A.*\Z', _tf.apply(_tn), flags=re.S, note=_note))
+
+
 # ---------------------------------------------------------------------- values bound to a temporary before they are put / returned / yielded
 def _bind_temps(kind):
     def f(m):
